@@ -154,9 +154,11 @@ TRaw ==
     /\ R.op = "Raw"
     /\ IF R.res = "Ok"
        THEN IF R.kind = "prop_remove" THEN ProposeRemove(R.c, R.g, NM(R.e), R.arg[1])
-            ELSE DoCommitX(R.c, R.g, IF R.kind = "admins_self" THEN "admins" ELSE R.kind,
+            ELSE IF R.kind = "prop_update" THEN ProposeUpdate(R.c, R.g, NM(R.e))
+            ELSE DoCommitX(R.c, R.g, CASE R.kind = "admins_self" -> "admins" [] R.kind = "update_identity" -> "idchange" [] OTHER -> R.kind,
                            CASE R.kind = "remove" -> Range(R.arg)
                              [] R.kind = "admins_self" -> GS(R.g, cl[R.c][R.g].chain).admins \cup {R.c}
+                             [] R.kind = "update_identity" -> [from |-> R.c, to |-> R.arg[1]]
                              [] OTHER -> R.arg,
                            NM(R.e), <<>>, TRUE)
        ELSE UNCHANGED vars          \* (the MLS library itself refused to build it; nothing is published)
